@@ -148,6 +148,35 @@ func attributeSequencesFresh(c *core.Ctx) {
 						check(ie.X, x, "stores into an element of")
 					}
 				}
+				// attribute storage = append(base, …): the result lives in base's backing array whenever base has spare
+				// capacity, so base must be storage of this function's own (or the attribute itself being extended)
+				if len(x.Lhs) == len(x.Rhs) {
+					for i, l := range x.Lhs {
+						if _, is := storage(l, 0); !is {
+							continue
+						}
+						call, ok := core.Unparen(x.Rhs[i]).(*ast.CallExpr)
+						if !ok || len(call.Args) < 1 {
+							continue
+						}
+						if id, ok := call.Fun.(*ast.Ident); !ok || id.Name != "append" {
+							continue
+						}
+						base := core.Unparen(call.Args[0])
+						if core.SameExpr(f.Pkg, base, core.Unparen(l)) || isFresh(base) {
+							continue
+						}
+						if se, ok := base.(*ast.SliceExpr); ok && se.Max != nil {
+							continue // full slice expression: append must reallocate
+						}
+						if _, ok := base.(*ast.CompositeLit); ok {
+							continue
+						}
+						c.Analysed(f)
+						c.Fail(rule, f.Name()+" builds "+core.ExprString(l)+" by appending to "+core.ExprString(base), x.Pos(),
+							"an attribute sequence is assigned `append("+core.ExprString(base)+", …)` where the base slice is neither allocated in this function nor the attribute itself: when the base has spare capacity the route's sequence lives in the base's backing array (e.g. a buffer kept by a policy action), and the next route built the same way overwrites it — the AS path already stored in another table changes")
+					}
+				}
 			case *ast.IncDecStmt:
 				if ie, ok := core.Unparen(x.X).(*ast.IndexExpr); ok {
 					check(ie.X, x, "stores into an element of")
